@@ -65,7 +65,7 @@ class Gen:
         for _ in range(r.choice([0, 1, 1, 2, 2, 3])):
             x = r.random()
             if x < p["gate"]:
-                pre.append(["g"] if r.random() >= p.get("qwait", 0.08) else ["q"])
+                pre.append(["g"] if r.random() >= p.get("qwait", 0.08) else r.choice([["q"], ["q"], ["u"]]))
             elif depth == 0 and r.random() < p.get("iflush", 0.04):
                 pre.append(["f"])
             elif depth == 0 and x < p["gate"] + p["inner_ops"]:
@@ -132,6 +132,11 @@ class Gen:
         others = [q for q in getattr(self, "pools", []) if q is not pool]
         if others and r.random() < 0.3:
             pool = r.choice(others)  # user code of one pool operating on another pool in the same loop
+        if self.p["w"].get("set_size", 0) > 0 and r.random() < 0.2:
+            # user code (a callback, a worker) that resizes the pool and cancels something in one go
+            a = {"op": "set_size", "pool": pool["idx"], "v": r.choice([0, 1, 1, 2, 3, None])}
+            b = self.simple_op(r.choice(["cancel_group", "cancel_group", "cancel_all", "cancel"]), pool, depth=1)
+            return {"op": "seq", "steps": [a, b] if r.random() < 0.6 else [b, a]}
         k = self.wchoice({"cancel": 4, "cancel_group": 4, "cancel_all": 1.5, "stop": 2 if pool["cls"] == "S" else 0,
                           "apply": 2 if pool["cls"] == "T" else 0, "start": 0,
                           "flush": 1, "open": 2, "lock": 0.3, "unlock": 0.3, "set_same": 2 if self.p["w"].get("set_same", 0) > 0 else 0})
@@ -260,7 +265,7 @@ class Gen:
         pools = []
         for i in range(r.choice(p["npools"])):
             cls = r.choice(p["cls"])
-            ps = {"idx": i, "cls": cls, "size": r.choice(p["sizes"]), "name": r.choice([None, None, f"p{i}", "same", "", f"load 100% {i}", "%s", "{}", f"p {i}", "pöol" + "x" * 40])}
+            ps = {"idx": i, "cls": cls, "size": r.choice(p["sizes"]), "name": r.choice([None, None, None, None, None, f"p{i}", "same", "", f"load 100% {i}", "%s", "{}", f"p {i}", "pöol" + "x" * 40])}
             if p.get("size_track"):
                 ps["size_track"] = True
             pools.append(ps)
